@@ -236,7 +236,7 @@ class Load(Suite):
             elif "OUTSIDE-c40" in ex.get("config", "") or "outside" in ex.get("head", ""):
                 fails[c["id"]] = "the served repository is the sentinel repository outside the root (root %r)" % root
             else:
-                bad = [p for p in ex.get("touched", []) if not under(p, R)]
+                bad = [p for p in (ex.get("touched") or []) if not under(p, R)]
                 if bad:
                     fails[c["id"]] = "the loader probed %r outside its root" % bad[0]
         return fails
